@@ -1,6 +1,6 @@
 CFG = {
  'files': ['bitmap/fromstr32.go', 'bmtree/newpath.go'],
- 'go': {'bitmap.FromStr32': 'bitmap.FromStr32',
+ 'go': {'bitmap.FromStr32': 'bitmap.FromStr32 (1 case in 16 repeated by 3 callers at once next to 3 callers converting other keys)',
         'bmtree.PathOf': 'bmtree.PathOf',
         'bmtree.PathOf/str': 'bmtree.PathStr(bmtree.PathOf(...))',
         'bmtree.PathsOf': 'bmtree.PathsOf',
